@@ -167,3 +167,25 @@ func (f *Fn) UnderAnyArm(l Loc, substr string) bool {
 	}
 	return false
 }
+
+// UnderCondFalse reports whether l lies in the false arm (single predecessor) of a branch whose
+// condition text contains all the given substrings.
+func (f *Fn) UnderCondFalse(l Loc, substrs ...string) bool {
+	for _, b := range f.live {
+		c := condOf(b)
+		if c == nil || len(b.Succs) != 2 {
+			continue
+		}
+		txt := types.ExprString(c)
+		all := true
+		for _, s := range substrs {
+			if !strings.Contains(txt, s) {
+				all = false
+			}
+		}
+		if all && len(f.predsOf(b.Succs[1])) == 1 && f.BlockDom(b.Succs[1], l.Blk) {
+			return true
+		}
+	}
+	return false
+}
